@@ -54,7 +54,7 @@ MIRI_ERR = re.compile(r"error: (Undefined Behavior|unsupported operation|.*[Dd]a
 
 
 def part_c(tier, out):
-    seeds, programs = (8, 4) if tier == "quick" else (64, 24)
+    seeds, programs = (16, 8) if tier == "quick" else (64, 32)
     flags = f"-Zmiri-many-seeds=0..{seeds} -Zmiri-preemption-rate=0.1 -Zmiri-disable-isolation"
     env = dict(ENV, MIRIFLAGS=flags)
     t0 = time.time()
@@ -76,7 +76,7 @@ def part_c(tier, out):
     if findings or ub:
         os.makedirs(ROOT + "/replays/C20", exist_ok=True)
         path = f"{ROOT}/replays/C20/miri-{SEED}.json"
-        m = re.search(r"seed[:= ]+(\d+)", text)
+        m = re.search(r"FAILING SEED: (\d+)", text) or re.search(r"seed[:= ]+(\d+)", text)
         json.dump({"property": "C20", "mode": "miri", "seed": SEED, "programs": programs, "miri_flags": flags,
                    "failing_miri_seed": int(m.group(1)) if m else None,
                    "diagnostics": (ub + findings)[:20], "output_tail": text[-6000:]}, open(path, "w"), indent=1)
